@@ -321,6 +321,94 @@ def _prefix_job(items):
     return [(kind, p, q, prefix_pair(kind, p, q)) for kind, p, q in items]
 
 
+# ------------------------------------------------------------------ Part C: one transient I/O error at every position
+
+def fault_cases():
+    """(name, setup ops, faulty op): store-level operations of the local store over the in-memory file system"""
+    K1, K2 = "1" * 64, "2" * 64
+    return [
+        ("first_store", [], ("store", K1, "v1")),
+        ("store_again_same_key", [("store", K1, "v1"), ("sync", "/p/a", K1)], ("store", K1, "v1")),
+        ("store_other_key", [("store", K1, "v1"), ("sync", "/p/a", K1)], ("store", K2, "v2")),
+        ("commit_new_path", [("store", K1, "v1"), ("sync", "/p/a", K1)], ("sync", "/p/b", K1)),
+        ("repoint_path", [("store", K1, "v1"), ("store", K2, "v2"), ("sync", "/p/a", K1)], ("sync", "/p/a", K2)),
+    ]
+
+
+def _store_body(ops, out):
+    from ..fsmc import scenarios as SC
+
+    def run():
+        import dds
+        import dds._api as api
+        dds.set_store("local", **SC.store_kw())
+        st = api._store()
+        for op in ops:
+            if op[0] == "store":
+                st.store_blob(op[1], op[2], None)
+            elif op[0] == "sync":
+                st.sync_paths(OrderedDict([(op[1], op[2])]))
+            elif op[0] == "observe":
+                for k in op[1]:
+                    out[("has", k)] = call(lambda: st.has_blob(k))
+                    out[("fetch", k)] = call(lambda: st.fetch_blob(k)) if out[("has", k)] == ("ok", True) else None
+                for p in op[2]:
+                    r = call(lambda: st.fetch_paths([p]))
+                    out[("path", p)] = ("ok", str(r[1].get(p))) if r[0] == "ok" and hasattr(r[1], "get") else r
+        return None
+    run.desc = dict(kind="store_ops")
+    return run
+
+
+def fault_part():
+    from ..fsmc import engine as E
+    from ..fsmc.vfs import VFS
+    from . import c07
+    m = c07.machine()
+    probs, n = [], 0
+    for name, setup, faulty in fault_cases():
+        keys = sorted({op[1] for op in setup + [faulty] if op[0] == "store"} | {op[2] for op in setup + [faulty] if op[0] == "sync"})
+        paths = sorted({op[1] for op in setup + [faulty] if op[0] == "sync"})
+        base = VFS()
+        res, _, _ = E.run_sequential(m, base, _store_body(setup, {}), pid=70)
+        if res[0] != "ok":
+            raise core.HarnessError(f"fault case {name}: setup failed {res}")
+        before = {}
+        E.run_sequential(m, base.clone(), _store_body([("observe", keys, paths)], before), pid=71)
+        _, total, _ = E.run_sequential(m, base.clone(), _store_body([faulty], {}), pid=72)
+        for k in range(total):
+            vfs = base.clone()
+            r, _, tr = E.run_sequential(m, vfs, _store_body([faulty], {}), pid=72, fail_at=k)
+            n += 1
+            after = {}
+            E.run_sequential(m, vfs, _store_body([("observe", keys, paths)], after), pid=73)
+            where = f"{tr[-1][1]}:{str(tr[-1][2][0]).rsplit('/', 1)[-1][:10]}" if tr else "?"
+            case = {"mode": "fault", "case": name, "k": k}
+            # whatever was completely there before the failing operation is still there, unchanged
+            for q, v in before.items():
+                if v in (("ok", False), None) or (q[0] == "path" and v[0] != "ok"):
+                    continue
+                if q[0] == "path" and faulty[0] == "sync" and faulty[1] == q[1]:
+                    ok = after.get(q) in (v, ("ok", faulty[2]))   # the path being re-pointed: old or new
+                else:
+                    ok = after.get(q) == v
+                if not ok:
+                    probs.append((f"C08|local|io_error|{name}|lost|{q[0]}", f"[{name}] an I/O error at primitive {k} ({where}) of {faulty[:2]}: {q} was {v!r}, now {after.get(q)!r}", case))
+            # a blob reported present is fetched back
+            for k_ in keys:
+                if after.get(("has", k_)) == ("ok", True) and (after.get(("fetch", k_)) or ("?",))[0] != "ok":
+                    probs.append((f"C08|local|io_error|{name}|present_but_unreadable", f"[{name}] after an I/O error at primitive {k} ({where}): has_blob True but fetch_blob -> {after.get(('fetch', k_))!r}", case))
+            # the operation can be repeated successfully
+            r2, _, _ = E.run_sequential(m, vfs, _store_body([faulty], {}), pid=74)
+            final = {}
+            E.run_sequential(m, vfs, _store_body([("observe", keys, paths)], final), pid=75)
+            if r2[0] != "ok":
+                probs.append((f"C08|local|io_error|{name}|retry_fails|{r2[1]}", f"[{name}] after an I/O error at primitive {k} ({where}) the same operation fails again: {r2}", case))
+            elif faulty[0] == "store" and (final.get(("has", faulty[1])), (final.get(("fetch", faulty[1])) or ("?", None))[:2]) != (("ok", True), ("ok", faulty[2])):
+                probs.append((f"C08|local|io_error|{name}|retry_wrong", f"[{name}] after the retry: {final}", case))
+    return probs, n
+
+
 def _single_job(items):
     core.ensure_repo_dds()
     time.time = lambda: 1.6e9
@@ -380,6 +468,9 @@ def run(tier, seed):
     for sp_ in URI_SEGS:
         extra4 += ["/" + sp_, "/a/" + sp_, "/" + sp_ + "/a"]
     extra4 += ["/a/a", "/a"] if "/a/a" not in p3 else []
+    # different strings that are canonically equivalent in Unicode (composed / decomposed), or differ only by case
+    for sp_ in ["caf\u00e9", "cafe\u0301", "\u00c5", "\u212b", "A\u030a", "Caf\u00e9", "CAF\u00c9"]:
+        extra4 += ["/" + sp_, "/a/" + sp_]
     # names the stores use for their own bookkeeping
     extra4 += ["/_dds_meta/a", "/_dds_meta/a/b", "/_dds_meta", "/blobs/a", "/data/a"]
     singles = [(k, p) for k in ("memory", "local", "dbfs") for p in p3 + extra4]
@@ -452,6 +543,9 @@ def run(tier, seed):
     for kind, a, b, probs in pool.pmap(_prefix_job, ppairs):
         for k, what in probs:
             res.violations.append(Violation(P, k, what, {"mode": "prefix", "kind": kind, "p": a, "q": b}))
+    fprobs, n_fault = fault_part()
+    for k, what, case in fprobs:
+        res.violations.append(Violation(P, k, what, case))
     pres = pool.pmap(_pair_job, pairs)
     for kind, p, q, probs in pres:
         for k, what in probs:
@@ -461,7 +555,7 @@ def run(tier, seed):
     res.coverage = dict(
         states=states, transitions=trans + len(singles) + 3 * len(pairs),
         traces_validated_against_impl=trans + len(singles) + 3 * len(pairs),
-        bfs=per, single_paths=len(singles), path_pairs=len(pairs), prefix_pairs_across_commits=len(ppairs), owned_locations=n_loc, footprint_touching_pairs_local=n_touch,
+        bfs=per, single_paths=len(singles), path_pairs=len(pairs), prefix_pairs_across_commits=len(ppairs), io_error_points=n_fault, owned_locations=n_loc, footprint_touching_pairs_local=n_touch,
         rejected_paths=nrej, exhaustive=(tier == "thorough"),
         rule="Part A: BFS over 27 store operations (store/has/fetch of 5 keys with str, bytes, None, object values; sync/fetch of a "
              "3-path window; reopen) against a dictionary model, state = model + physical state. Part B: each of the "
@@ -492,6 +586,8 @@ def replay(case):
             teardown(s)
     if m == "single":
         return [Violation(P, k, w, case) for k, w in single(case["kind"], case["path"])[2]]
+    if m == "fault":
+        return [Violation(P, k, what, c) for k, what, c in fault_part()[0] if c["case"] == case["case"] and c["k"] == case["k"]]
     if m == "prefix":
         return [Violation(P, k, what, case) for k, what in prefix_pair(case["kind"], case["p"], case["q"])]
     if m == "pair":
